@@ -12,6 +12,7 @@ Definition run_by_id (id : Z) (c : sx) : sx :=
          | L [A 2; t] => match getZs t with Some t => GrlSplit.run_split_args t | None => sx_bad end
          | L [A 3; t; p] => match getZs t, getZs p with Some t, Some p => GrlSplit.run_find t p | _, _ => sx_bad end
          | L [A 4; t] => match getZs t with Some t => GrlSplit.run_then t | None => sx_bad end
+         | L [A 5; t] => match getZs t with Some t => GrlSplit.run_when_then t | None => sx_bad end
          | _ => Grl.run_sx c end
   | 5 => match c with
          | L [A 5; t] => match getZs t with Some t => BwExpr.run_text t | None => sx_bad end
@@ -52,6 +53,7 @@ Definition ok_by_id (id : Z) (c o : sx) : Z :=
          | L [A 2; t] => match getZs t with Some t => b2z (sx_eqb (GrlSplit.run_split_args t) o) | None => 0 end
          | L [A 3; t; p] => match getZs t, getZs p with Some t, Some p => b2z (sx_eqb (GrlSplit.run_find t p) o) | _, _ => 0 end
          | L [A 4; t] => match getZs t with Some t => b2z (sx_eqb (GrlSplit.run_then t) o) | None => 0 end
+         | L [A 5; t] => match getZs t with Some t => b2z (sx_eqb (GrlSplit.run_when_then t) o) | None => 0 end
          | _ => Grl.ok_sx c o end
   | 5 => ExprShape.ok_sx c o
   | 6 => b2z (Incremental.ok_sx c o)
